@@ -522,6 +522,9 @@ static void reg_run(const std::vector<std::string> &plan, Child &c) {
           if (sets[s].ops[o].size != size || sets[s].ops[o].shadow) continue;
           if (sets[s].ops[o].form == 1 && !insns.empty()) continue;   // an opcode that loads by itself reads arrays: first instruction only
           insns.push_back({true, s, o, sets[s].ops[o].kind, sets[s].ops[o].name, sets[s].ops[o].form});
+          // half of the four-source instructions get a *temporary* as their third source - one that was written
+          // twice before (the compiler then works on a renamed copy of it)
+          if (insns.back().form == 2 && ((kvu(w, "ds", 1) >> (insns.size() & 15)) & 1)) insns.back().form = 3;
         } else if (starts(item, "b:")) {
           int kind = kind_from(item.substr(2));
           insns.push_back({false, -1, -1, kind, builtin_name(kind, size)});
@@ -545,7 +548,7 @@ static void reg_run(const std::vector<std::string> &plan, Child &c) {
         int need = 1;
         std::vector<Insn> kept;
         for (auto &in : insns) {
-          int more = in.form == 2 ? 3 : in.kind != K_COPY ? 1 : 0;
+          int more = in.form == 3 ? 4 : in.form == 2 ? 3 : in.kind != K_COPY ? 1 : 0;
           if (need + more > 8) continue;
           need += more;
           kept.push_back(in);
@@ -562,7 +565,22 @@ static void reg_run(const std::vector<std::string> &plan, Child &c) {
           vname[b] = strf("s%d", nsrc);
           srcvars.push_back(b);
         }
-        if (insns[k].form == 2) {
+        if (insns[k].form == 3) {
+          // third source: a temporary, t3 = sA; t3 = t3 + sB (written twice)
+          int t3 = orc_program_add_temporary(p, size, strf("u%zu", k).c_str());
+          int sA = orc_program_add_source(p, size, strf("s%d", nsrc + 1).c_str());
+          int sB = orc_program_add_source(p, size, strf("s%d", nsrc + 2).c_str());
+          int e2 = orc_program_add_source(p, size, strf("s%d", nsrc + 3).c_str());
+          vname[t3] = strf("u%zu", k); vname[sA] = strf("s%d", nsrc + 1); vname[sB] = strf("s%d", nsrc + 2); vname[e2] = strf("s%d", nsrc + 3);
+          nsrc += 3;
+          srcvars.push_back(sA); srcvars.push_back(sB); srcvars.push_back(e2);
+          orc_program_append_2(p, builtin_name(K_COPY, size), 0, t3, sA, 0, 0);
+          orc_program_append_2(p, builtin_name(K_ADD, size), 0, t3, t3, sB, 0);
+          std::string n0 = vname[dst], n1 = vname[cur], n2 = vname[b], n3 = vname[t3], n4 = vname[e2];
+          const char *args[5] = {n0.c_str(), n1.c_str(), n2.c_str(), n3.c_str(), n4.c_str()};
+          orc_program_append_str_n(p, insns[k].name.c_str(), 0, 5, args);
+          c.count("probe.five_operand_extension_instruction_with_temporary_source");
+        } else if (insns[k].form == 2) {
           // five operands: only the by-name entry point can express them
           int c2 = orc_program_add_source(p, size, strf("s%d", nsrc + 1).c_str());
           int e2 = orc_program_add_source(p, size, strf("s%d", nsrc + 2).c_str());
@@ -655,10 +673,14 @@ static void reg_run(const std::vector<std::string> &plan, Child &c) {
         memcpy(&v, act.ptr(s1) + (size_t)row * act.stride[s1] + (size_t)i * size, size);
         size_t si = 1;
         for (auto &in : insns) {
-          int nb = in.form == 2 ? 3 : in.kind != K_COPY ? 1 : 0;
+          int nb = in.form >= 2 ? 3 : in.kind != K_COPY ? 1 : 0;
+          auto src_at = [&](size_t idx) { uint32_t x = 0; memcpy(&x, act.ptr(srcvars[idx]) + (size_t)row * act.stride[srcvars[idx]] + (size_t)i * size, size); return x; };
           for (int q = 0; q < (nb ? nb : 1); q++) {
             uint32_t b = 0;
-            if (nb) { memcpy(&b, act.ptr(srcvars[si]) + (size_t)row * act.stride[srcvars[si]] + (size_t)i * size, size); si++; }
+            if (nb) {
+              if (in.form == 3 && q == 1) { b = src_at(si) + src_at(si + 1); si += 2; if (size < 4) b &= (1u << (8 * size)) - 1; }   // the temporary: sA + sB
+              else { b = src_at(si); si++; }
+            }
             v = apply_kind(in.kind, v, b);
             if (size < 4) v &= (1u << (8 * size)) - 1;
           }
